@@ -377,11 +377,17 @@ func newGSIBlock(s Subtitles) (g *gsiBlock) {
 		if s.Metadata.STLCreationDate != nil {
 			g.creationDate = *s.Metadata.STLCreationDate
 		}
-		g.countryOfOrigin = s.Metadata.STLCountryOfOrigin
-		g.displayStandardCode = s.Metadata.STLDisplayStandardCode
+		if s.Metadata.STLCountryOfOrigin != "" {
+			g.countryOfOrigin = s.Metadata.STLCountryOfOrigin
+		}
+		if s.Metadata.STLDisplayStandardCode != "" {
+			g.displayStandardCode = s.Metadata.STLDisplayStandardCode
+		}
 		g.editorContactDetails = s.Metadata.STLEditorContactDetails
 		g.editorName = s.Metadata.STLEditorName
-		g.framerate = s.Metadata.Framerate
+		if _, ok := stlFramerateMapping.GetInverse(s.Metadata.Framerate); ok {
+			g.framerate = s.Metadata.Framerate
+		}
 		if v, ok := stlLanguageMapping.GetInverse(s.Metadata.Language); ok {
 			g.languageCode = v.(string)
 		}
